@@ -39,6 +39,46 @@ def _observe(obj, name):
     return value
 
 
+def _all_subclasses(cls, found):
+    for sub in cls.__subclasses__():
+        if sub not in found:
+            found.add(sub)
+            _all_subclasses(sub, found)
+    return found
+
+
+def _install_encoders():
+    """class-level state: Serializable.post_text_encoder is swapped while a non-string dictionary key is rendered.
+    Give every Serializable class an encoder of its own (same behaviour as the stock one) so that a missing or a
+    misdirected restore shows as a changed class attribute."""
+    from cryptoparser.common.base import Serializable, SerializableTextEncoder  # pylint: disable=import-outside-toplevel
+
+    class Encoder(SerializableTextEncoder):
+        pass
+
+    installed = {}
+    for cls in sorted(_all_subclasses(Serializable, set()), key=lambda item: (item.__module__, item.__qualname__)):
+        if cls.__module__.startswith('cryptoparser.') and 'post_text_encoder' not in cls.__dict__:
+            installed[cls] = Encoder()
+            cls.post_text_encoder = installed[cls]
+    installed[Serializable] = Serializable.__dict__['post_text_encoder']
+    return installed
+
+
+def _encoders_intact(installed):
+    for cls, encoder in installed.items():
+        if cls.__dict__.get('post_text_encoder') is not encoder:
+            return cls
+    return None
+
+
+def _remove_encoders(installed):
+    from cryptoparser.common.base import Serializable  # pylint: disable=import-outside-toplevel
+    for cls in installed:
+        if cls is not Serializable and 'post_text_encoder' in cls.__dict__:
+            del cls.post_text_encoder
+
+
 def _same_result(left, right):
     if isinstance(left, (bytes, str, int, tuple)) or left is None:
         return left == right
@@ -62,12 +102,17 @@ def purity(val: int) -> bool:
         return True
     names = [name for name in OBSERVERS if getattr(type(obj), name, None) is not None]
     first = {}
+    encoders = _install_encoders()
     for name in names:
         first[name] = _observe(obj, name)
         if not deep_eq(obj, snapshot):
             api.note('%s changed the object' % name)
             return False
     reach()
+    damaged = _encoders_intact(encoders)
+    if damaged is not None:
+        api.note('the observers changed class-level state: post_text_encoder of %s' % damaged.__name__)
+        return False
     # second round in reverse order (every observer has by now run after every other one): same results, object
     # still untouched
     for name in reversed(names):
@@ -205,8 +250,15 @@ def shared_defaults():
 def observers_native():
     """concrete: every observer incl. as_json / fingerprints on every accepted seed, twice, object unchanged"""
     problems = []
+    encoders = _install_encoders()
     for cls, _ in registry.seeded_classes():
         for data, obj in registry.accepted_seeds(cls)[:3]:
+            damaged = _encoders_intact(encoders)
+            if damaged is not None:
+                problems.append('class-level state changed: post_text_encoder of %s is not the one installed (seen '
+                                'before %s %s)' % (damaged.__name__, cls.__name__, data.hex()[:40]))
+                _remove_encoders(encoders)
+                encoders = _install_encoders()
             try:
                 snapshot = copy.deepcopy(obj)
             except Exception:  # pylint: disable=broad-except
@@ -224,6 +276,10 @@ def observers_native():
                 if not deep_eq(obj, snapshot):
                     problems.append('%s.%s changes the object (%s)' % (cls.__name__, name, data.hex()[:40]))
                     break
+    damaged = _encoders_intact(encoders)
+    if damaged is not None:
+        problems.append('class-level state changed: post_text_encoder of %s is not the one installed' % damaged.__name__)
+    _remove_encoders(encoders)
     return problems
 
 
